@@ -103,6 +103,8 @@ class Tracker:
     # -- per step -------------------------------------------------------------------------------
     def before(self, act):
         a = act["a"]
+        if a in ("AppSetCode", "AppHelper", "AppAllocate", "AppInput"):
+            self._nerr_before = len(self.w.clients[act["c"]].api_errors)
         if a == "AppClose":
             name = act["c"]
             self.cl[name]["triggers"].append(("app", self.saw_peer(name)))
@@ -135,8 +137,22 @@ class Tracker:
             cl = self.w.clients[act["c"]]
             if not getattr(cl, "code_used", None):
                 cl.code_attempt = act["code"]
+        elif a == "AppHelper" and act.get("m") in ("choose_nameplate", "choose_words") and act.get("args"):
+            cl = self.w.clients[act["c"]]
+            if not hasattr(cl, "typed"):
+                cl.typed = {}
+            cl.typed.setdefault(act["m"], act["args"][0])
 
     def after(self, act):
+        # what the application gave as its code - counted only when the call was accepted (no exception out of it)
+        if act["a"] in ("AppSetCode", "AppHelper") and len(self.w.clients[act["c"]].api_errors) == getattr(self, "_nerr_before", 0):
+            cl = self.w.clients[act["c"]]
+            if act["a"] == "AppSetCode":
+                cl.code_given = act["code"]
+            elif act.get("m") in ("choose_nameplate", "choose_words") and act.get("args"):
+                if not hasattr(cl, "typed_ok"):
+                    cl.typed_ok = {}
+                cl.typed_ok[act["m"]] = act["args"][0]
         for name, cl in self.w.clients.items():
             st = self.cl[name]
             # every plaintext handed to the application must be backed by a frame that its named sender really
@@ -149,10 +165,17 @@ class Tracker:
                         st["unbacked"].append("message#%d" % st["nmsg"])
                     st["nmsg"] += 1
             st["nev"] = len(cl.events)
-            # the code this side really uses is what its 'code' event reports
+            # the code of this side: what its application gave it (set_code, or nameplate and words typed into the input helper) -
+            # whatever the wormhole then reports; for an allocated code, what the 'code' event reports
             for k, v in cl.events:
                 if k == "code":
-                    cl.code_used = v
+                    typed = getattr(cl, "typed_ok", {})
+                    if getattr(cl, "code_given", None) and not getattr(cl, "code_used", None):
+                        cl.code_used = cl.code_given
+                    elif "choose_nameplate" in typed and "choose_words" in typed and not getattr(cl, "code_used", None):
+                        cl.code_used = typed["choose_nameplate"] + "-" + typed["choose_words"]
+                    elif not getattr(cl, "code_used", None):
+                        cl.code_used = v
             n = sum(1 for k, _ in cl.events if k == "closed")
             if n > st["nclosed_seen"]:
                 st["nclosed_seen"] = n
